@@ -653,6 +653,17 @@ def replay(path):
             return 1
         print("replay: the case now runs to its end")
         return 0
+    if rep.get("kind") == "tconv-row":
+        build_harness()
+        d = os.path.join(WORK, "replay")
+        rp, op = os.path.join(d, "row.ndjson"), os.path.join(d, "row.out")
+        with open(rp, "w") as f:
+            f.write(json.dumps(rep["row"]) + "\n")
+        sh([BIN, "tconv", rp, op], timeout=120)
+        now = open(op).read().strip()
+        print("replay: the conversion now gives", now, "| recorded:", json.dumps(rep["observed"]))
+        print("replay: run ./check C19 to validate it against TimeConv.tla again")
+        return 1
     if rep.get("kind") == "det-trace":
         # execute the history in two fresh processes and compare what they record
         build_harness()
